@@ -4,9 +4,9 @@ From V Require Import Base.Strings Base.Result Model.Registry Model.Settings Mod
   Model.TypePath Model.Derives Model.Generate Model.Emit Model.Equal Model.WellFormed
   Proofs.GenProofs Proofs.SortDedup Proofs.ClosedProofs
   Checkers.Parse Checkers.Sem Model.Unparse Model.UnparseClosed
-  Proofs.ParseTy Proofs.ParseItem Proofs.ParseMod Proofs.ArityProofs Proofs.ParseClosed.
+  Proofs.ParseTy Proofs.ParseItem Proofs.ParseMod Proofs.ArityProofs Proofs.ParseClosed
+  Model.Sized Proofs.SizedProofs.
 From V Require Model.Shape.
-  Proofs.GenProofs Proofs.SortDedup Proofs.ClosedProofs Model.Sized Proofs.SizedProofs.
 Import ListNotations.
 
 (** every emitted item is the IR of an item-eligible registry entry, sitting at that entry's path *)
